@@ -162,6 +162,13 @@ pub fn inert_inputs(maxlen: usize) -> Vec<String> {
 
 /// parser-level part of the oracle: nothing dispatched, ground at the end
 fn parser_inert(s: &str) -> Result<(), String> {
+    match crate::engine::guarded(|| parser_inert_inner(s)) {
+        Ok(r) => r,
+        Err(p) => Err(format!("panic: {}", p)),
+    }
+}
+
+fn parser_inert_inner(s: &str) -> Result<(), String> {
     let mut p = Parser::new();
     for ch in s.chars() {
         if let Some(f) = p.feed(ch) {
@@ -319,10 +326,145 @@ fn deep_parser_sweep(ctx: &Ctx, rep: &mut Report) {
     }
 }
 
+/// Shapes and counts beyond the three parameter shapes of the main list:
+/// (a) sequences that no implemented function can match because a parameter byte or a
+/// private marker comes AFTER an intermediate or after the parameters - every final byte;
+/// (b) every parameter count 0..=70 in CSI (unimplemented final) and DCS headers, with
+/// empty, one-digit and five-digit values; every intermediate count 1..=8;
+/// (c) every payload length 0..=`maxlen` for each string kind and terminator.
+fn shape_inputs(maxlen: usize) -> (Vec<String>, Vec<String>) {
+    let mut all: Vec<String> = vec![];
+    let mut sub: Vec<String> = vec![]; // the part that is also run through a terminal
+    // (a)
+    let pbytes = ['0', '7', ';', ':', '<', '?'];
+    for intro in ["\x1b[", "\u{9b}"] {
+        for pre in ["", "1", "1;2", "?", "?6"] {
+            for inter in 0x20u8..=0x2f {
+                for fin in 0x40u8..=0x7e {
+                    for &p1 in &pbytes {
+                        let s = format!("{}{}{}{}{}", intro, pre, inter as char, p1, fin as char);
+                        if matches!(inter as char, '!' | ' ' | '$') {
+                            sub.push(s.clone());
+                        }
+                        all.push(s);
+                        for &p2 in &pbytes {
+                            all.push(format!("{}{}{}{}{}{}", intro, pre, inter as char, p1, p2, fin as char));
+                        }
+                    }
+                }
+            }
+        }
+        // private marker after the parameters
+        for marker in ['<', '=', '>', '?'] {
+            for fin in 0x40u8..=0x7e {
+                for tail in ["", "2", ";", " "] {
+                    let s = format!("{}1{}{}{}", intro, marker, tail, fin as char);
+                    sub.push(s.clone());
+                    all.push(s);
+                    all.push(format!("{}1;2{}{}{}", intro, marker, tail, fin as char));
+                }
+            }
+        }
+    }
+    // (b)
+    for n in 0..=70usize {
+        for val in ["", "1", "12345"] {
+            let params = vec![val; n].join(";");
+            for (intro, tail) in [("\x1b[", " q"), ("\u{9b}", "$y"), ("\x1b[?", "y"), ("\x1bP", "q#1~\x1b\\"), ("\u{90}", "$qm\u{9c}"), ("\x1bP?", "p\x1b\\")] {
+                let s = format!("{}{}{}", intro, params, tail);
+                sub.push(s.clone());
+                all.push(s);
+            }
+        }
+    }
+    for n in 1..=8usize {
+        for ic in [' ', '#', '/'] {
+            let inters: String = std::iter::repeat(ic).take(n).collect();
+            for s in [format!("\x1b[1{}q", inters), format!("\x1b{}q", inters), format!("\x1bP1{}q\u{9c}", inters)] {
+                if n > 1 || ic != '#' {
+                    sub.push(s.clone());
+                    all.push(s);
+                }
+            }
+        }
+    }
+    // (c)
+    for len in 0..=maxlen {
+        for (intro, osc) in [("\x1b]", true), ("\u{9d}", true), ("\x1bP", false), ("\x1bX", false), ("\x1b^", false), ("\u{9f}", false)] {
+            let payload: String = (0..len).map(|i| if i % 7 == 6 { ';' } else { 'a' }).collect();
+            let terms: &[&str] = if osc { &["\x07", "\x1b\\"] } else { &["\x1b\\", "\u{9c}"] };
+            for t in terms {
+                let s = format!("{}{}{}", intro, payload, t);
+                if len <= 40 || len % 64 <= 1 || len % 100 <= 1 || len + 1 >= maxlen {
+                    sub.push(s.clone());
+                }
+                all.push(s);
+            }
+        }
+    }
+    (all, sub)
+}
+
+fn shape_sweep(ctx: &Ctx, rep: &mut Report, sys: &Sys) {
+    use rayon::prelude::*;
+    let maxlen = ctx.tier.pick(1100usize, 4200usize);
+    let (all, sub) = shape_inputs(maxlen);
+    let bad: Vec<(String, String)> = all
+        .par_iter()
+        .filter_map(|s| parser_inert(s).err().map(|e| (s.clone(), e)))
+        .collect();
+    for (i, e) in bad.iter().take(3) {
+        emit_violation(ctx, rep, "C20", json!({"part":"parser","input":esc(i),"input_raw":i,"oracle":"parser-inert","observed":e}));
+    }
+    if bad.len() > 3 {
+        rep.violations += bad.len() as u64 - 3;
+    }
+    // the terminal-level oracle on two seed states that have every mode, the margins,
+    // the pen, the charsets, the saved cursor and a tab stop away from their defaults
+    let seeds = ["", "\x1b[2;3r\x1b[?6h\x1b[4h\x1b[?7l\x1b[1;31m\x1b(0ab\x1b[2;4H\x1bH\x1b7\x1b[?25l\x1b[?1h\x1b[2;2H"];
+    let tbad: Vec<(usize, String, String)> = sub
+        .par_iter()
+        .filter_map(|s| {
+            for (si, seed) in seeds.iter().enumerate() {
+                let rebuild = || {
+                    let mut vt = build_vt(6, 4, None);
+                    let _ = vt.feed_str(seed);
+                    vt
+                };
+                let mut out = Out::default();
+                match crate::engine::guarded(|| sys.judge(s, &rebuild, &mut out)) {
+                    Ok(()) => {
+                        if let Some(v) = out.violations.first() {
+                            return Some((si, s.clone(), format!("{}: {}", v.oracle, v.detail)));
+                        }
+                    }
+                    Err(p) => return Some((si, s.clone(), format!("panic: {}", p))),
+                }
+            }
+            None
+        })
+        .collect();
+    for (si, i, e) in tbad.iter().take(3) {
+        emit_violation(ctx, rep, "C20", json!({"part":"shapes-and-counts","seed":esc(seeds[*si]),"seed_raw":seeds[*si],"input":esc(i),"input_raw":i,"oracle":"inert-on-terminal","observed":e}));
+    }
+    if tbad.len() > 3 {
+        rep.violations += tbad.len() as u64 - 3;
+    }
+    let n = all.len() as u64 + 2 * sub.len() as u64;
+    rep.evaluations += n;
+    rep.transitions += n;
+    rep.distinct_nontrivial += sub.len() as u64;
+    rep.extra.insert("shape_traces".into(), json!(n));
+    rep.parts.push(json!({"part":"shapes-and-counts","parser_level_inputs":all.len(),"terminal_level_inputs":sub.len(),"terminal_seeds":2,"max_payload_len":maxlen,
+        "max_param_count":70,"violating":bad.len() + tbad.len()}));
+    println!("part shapes-and-counts: {} inputs through the parser, {} through 2 terminal states, {} violating", all.len(), sub.len(), bad.len() + tbad.len());
+}
+
 pub fn run(ctx: &Ctx) -> Report {
     let mut rep = Report::new();
     let sys = make(ctx.tier);
     deep_parser_sweep(ctx, &mut rep);
+    shape_sweep(ctx, &mut rep, &sys);
     // parser-level oracle once per inert input (independent of the seed)
     let mut pbad = 0;
     for i in &sys.inert {
@@ -341,10 +483,10 @@ pub fn run(ctx: &Ctx) -> Report {
     run_part(ctx, &mut rep, &p);
     let n = rep.counters.get("seeds-x-inert-inputs.inert_evaluations").copied().unwrap_or(0);
     rep.evaluations += n;
-    rep.traces_validated = n;
+    rep.traces_validated = n + rep.extra.get("shape_traces").and_then(|v| v.as_u64()).unwrap_or(0);
     rep.samples.push(json!(esc(&sys.inert[sys.inert.len() / 3])));
     rep.samples.push(json!(esc(&sys.inert[sys.inert.len() / 2])));
-    rep.rule = "seed states = every state reachable by the all-functions alphabet (no truncated sequences) up to the depth bound; inert inputs = 5 string kinds x 7/8-bit introducers x all payloads up to the length bound over 13-14 class representatives x every terminator, every CSI final x {no prefix, ? < = > ?$, each intermediate} x 3 parameter shapes outside the implemented table, every unimplemented ESC final with and without each intermediate, every unassigned C0/C1; every (seed, inert) pair: no changed line reported, lines()/cursor/dump() identical, a following char handled as from ground, hidden state identical (internal terminal state identical, else full probe battery); each inert input also through a bare Parser (nothing dispatched, ends in Ground)".into();
+    rep.rule = "seed states = every state reachable by the all-functions alphabet (no truncated sequences) up to the depth bound; inert inputs = 5 string kinds x 7/8-bit introducers x all payloads up to the length bound over 13-14 class representatives x every terminator, every CSI final x {no prefix, ? < = > ?$, each intermediate} x 3 parameter shapes outside the implemented table, every unimplemented ESC final with and without each intermediate, every unassigned C0/C1; every (seed, inert) pair: no changed line reported, lines()/cursor/dump() identical, a following char handled as from ground, hidden state identical (internal terminal state identical, else full probe battery); each inert input also through a bare Parser (nothing dispatched, ends in Ground); shapes-and-counts: every final byte after a parameter byte or private marker that follows an intermediate or the parameters, every parameter count 0..=70 in CSI and DCS headers, every intermediate count 1..=8, every payload length up to the bound for each string kind and terminator - through the bare Parser, and a subset through two terminal states (default; everything non-default)".into();
     rep.assumptions = vec![
         "seeds are in parser ground state; inert inputs that start with an introducer behave the same from any parser state (ESC/C1 are 'anywhere' transitions), which C03 checks".into(),
         "'CSI ... ! p' with any private marker is the DECSTR spelling and is excluded, as the statement allows".into(),
@@ -360,6 +502,20 @@ pub fn replay(ctx: &Ctx, v: &Value) -> bool {
     }
     let tier = if v["tier"] == "thorough" { Tier::Thorough } else { Tier::Quick };
     let sys = make(tier);
+    if v["part"] == "shapes-and-counts" {
+        let (seed, input) = (v["seed_raw"].as_str().unwrap_or("").to_string(), v["input_raw"].as_str().unwrap_or("").to_string());
+        let rebuild = || {
+            let mut vt = build_vt(6, 4, None);
+            let _ = vt.feed_str(&seed);
+            vt
+        };
+        let mut out = Out::default();
+        let r = crate::engine::guarded(|| sys.judge(&input, &rebuild, &mut out));
+        for v in &out.violations {
+            println!("{}: {}", v.oracle, v.detail);
+        }
+        return r.is_err() || !out.violations.is_empty();
+    }
     let p = parts!(tier, &sys);
     replay_part(ctx, &p, v)
 }
